@@ -27,6 +27,26 @@ INVARIANT NoLostBranch
 """ % (n, w, "TRUE" if export else "FALSE", "INVARIANT ExportInv" if export else "PROPERTY Terminates")
 
 
+def _wait_collected(thread, count, timeout=10.0):
+    """Block until the runner thread's run_benchmarks frame holds `count` collected results (read from the frame's locals): the schedule TLC chose
+    fixes the order of completion, and this makes the order of collection follow it whatever the machine's load."""
+    import sys
+    import time
+    t_end = time.time() + timeout
+    while time.time() < t_end:
+        if not thread.is_alive():
+            return True                      # the call has returned: everything was collected
+        f = sys._current_frames().get(thread.ident)
+        while f is not None and f.f_code.co_name != "run_benchmarks":
+            f = f.f_back
+        if f is not None:
+            res = f.f_locals.get("results")
+            if isinstance(res, list) and len(res) >= count:
+                return True
+        time.sleep(0.001)
+    return False
+
+
 def gated_run(n, w, finish):
     from kaira.benchmarks.base import BaseBenchmark
     from kaira.benchmarks.runners import ParallelRunner
@@ -62,13 +82,15 @@ def gated_run(n, w, finish):
             box["exc"] = e
     t = threading.Thread(target=main)
     t.start()
+    released = 0
     try:
         for b in finish:
             if not started[b].wait(20):
                 raise tlc.TLCFailure("gated replay: benchmark %d never started (n=%d w=%s finish=%s)" % (b, n, w, finish))
             gate[b].set()
             done[b].wait(20)
-            threading.Event().wait(0.004)     # let the future complete and as_completed wake up before the next release
+            released += 1
+            _wait_collected(t, released)      # the next benchmark is released only when the runner has collected this one
     finally:
         for g in gate:
             g.set()
